@@ -5,6 +5,7 @@ of a model `Outcome`.
 -/
 import Driver.Proto
 import AGH.Spec.Filter
+import AGH.Model.FilterRules
 namespace Driver.FilterIO
 open Driver AGH AGH.Filter
 
@@ -277,5 +278,32 @@ def oracleEngines (cs : Case) : Engines where
   block := fun r => match cs.oracles.find? (fun o => o.host == r.host && o.rrtype == r.qtype) with
     | some o => o.block | none => none
   svc := fun sv h => h == qhost cs.q && cs.svcOracle.contains sv.name
+
+/-- Layer B: the engines computed from the rule texts of the case by the model
+of urlfilter.  `none` if some line is outside the modelled grammar. -/
+def ruleEnginesOf (cs : Case) : Option Engines := do
+  let rs : RuleSets := { custom := cs.custom, blockLists := cs.blockLists, allowLists := cs.allowLists }
+  let block ← parseLines rs.blockLines
+  let allow ← parseLines rs.allowLines
+  let svcs := cs.conf.services ++ (match cs.conf.client with | some cl => cl.services | none => [])
+  if svcs.all (fun sv => (parseServiceRules sv.rules).isSome) then pure (ruleEngines block allow) else none
+
+/-- Compare Layer B with the real urlfilter engines' verdicts shipped with the
+case; returns a description of the first difference. -/
+def engineMismatch (cs : Case) (e : Engines) : Option String :=
+  let bad := cs.oracles.find? (fun o =>
+    let r := reqFor cs.conf o.host o.rrtype
+    renderEngTok (e.allow r) != renderEngTok o.allow || renderEngTok (e.block r) != renderEngTok o.block)
+  match bad with
+  | some o =>
+    let r := reqFor cs.conf o.host o.rrtype
+    some ("ENGINE-MISMATCH host=" ++ hexEncode o.host ++ " type=" ++ toString o.rrtype ++
+      " allow=" ++ renderEngTok (e.allow r) ++ "/" ++ renderEngTok o.allow ++
+      " block=" ++ renderEngTok (e.block r) ++ "/" ++ renderEngTok o.block)
+  | none =>
+    let svcs := cs.conf.services ++ (match cs.conf.client with | some cl => cl.services | none => [])
+    match svcs.find? (fun sv => e.svc sv (qhost cs.q) != cs.svcOracle.contains sv.name) with
+    | some sv => some ("SERVICE-MISMATCH " ++ hexEncode sv.name)
+    | none => none
 
 end Driver.FilterIO
